@@ -264,6 +264,9 @@ func (r *ioRunner) run(ops []ioOp) {
 				if kind == "ReadBytes" {
 					data, err = rw.ReadBytes(ctx, 0)
 				} else {
+					if n > r.n {
+						n = 65536 // "larger than the whole stream": also larger than any internal buffer
+					}
 					b := make([]byte, n)
 					var k int
 					k, err = rw.Read(ctx, b)
